@@ -51,14 +51,14 @@ Dims == [
   tcbOver     |-> <<"member", "wholeBody", "reencoded">>,
   tcbAlter    |-> <<"none", "memberBit", "sigBit">>,
   tcbExtra    |-> <<"none", "dupBefore", "dupAfter", "caseBefore", "caseAfter", "foldAfter">>,
-  tcbHdr      |-> <<"ok", "missing", "duplicated", "empty", "swapped", "threeCerts">>,
+  tcbHdr      |-> <<"ok", "missing", "duplicated", "empty", "swapped", "threeCerts", "bitflip">>,   \* bitflip: one bit of the DER of a header certificate
   tcbMeta     |-> <<"ok", "wrongId", "wrongVersion", "noLevels", "levelsOmitted", "memberMissing">>,
   qeSignerDoc |-> <<"ok", "pkiB", "wrongRole", "rootDirect", "selfSigned", "lookalikeSameSerial">>,
   sharedSigner |-> <<"distinct", "shared">>,   \* one signing certificate (byte-identical issuer chains) for both documents, as Intel does
   qeOver      |-> <<"member", "wholeBody", "reencoded">>,
   qeAlter     |-> <<"none", "memberBit", "sigBit">>,
   qeExtra     |-> <<"none", "dupBefore", "dupAfter", "caseBefore", "caseAfter", "foldAfter">>,
-  qeHdr       |-> <<"ok", "missing", "duplicated", "empty", "swapped", "threeCerts">>,
+  qeHdr       |-> <<"ok", "missing", "duplicated", "empty", "swapped", "threeCerts", "bitflip">>,
   qeMeta      |-> <<"ok", "wrongId", "wrongVersion", "noLevels", "levelsOmitted", "memberMissing">>,
   \* signed content (C04, C07; refined in TcbLevels.tla)
   tcbContent |-> <<"ok", "laterMatch", "laterMatchTdx", "laterMatchPce", "fmspcUpper", "fmspc", "pceid", "mrsigner", "attrs",
@@ -75,7 +75,7 @@ Dims == [
   rootCrlDps    |-> <<"ok", "errorThenOk", "garbageThenOk", "none", "error", "garbage", "errorError">>,
   \* time (C06): artefact_position; the governing clock is on the named side of the artefact's
   \* expiry (or 1 s before its notBefore), the other four clocks on the opposite side.
-  time |-> <<"none",
+  time |-> <<"none", "spread",          \* spread: five pairwise distinct clocks, all inside every validity window (honest)
     "leaf_before", "leaf_at", "leaf_after", "leaf_preNB",
     "inter_before", "inter_at", "inter_after", "inter_preNB",
     "root_before", "root_at", "root_after",
@@ -131,11 +131,11 @@ InPool(p, w) == \/ (p = "A" /\ w.pool \in {"A", "AB"})
 IssuedByInter(w) == w.leafRole \in {"pck", "wrongCN"}
 
 \* time dimension
-TimeArt(w) == IF w.time = "none" THEN "none"
+TimeArt(w) == IF w.time \in {"none", "spread"} THEN "none"
               ELSE CHOOSE a \in {"leaf","inter","root","tcbNext","tcbSigner","tcbRoot","qeNext","qeSigner","qeRoot",
                                  "pckCrlNext","pckCrlSigner","pckCrlRoot","rootCrlNext"} :
                      \E p \in {"before","at","after","preNB"} : w.time = a \o "_" \o p
-TimePos(w) == IF w.time = "none" THEN "none"
+TimePos(w) == IF w.time \in {"none", "spread"} THEN "none"
               ELSE CHOOSE p \in {"before","at","after","preNB"} : w.time = TimeArt(w) \o "_" \o p
 \* C06's table: which TimeSet entry judges which artefact
 Gov == [leaf |-> "PckCertChain", inter |-> "PckCertChain", root |-> "PckCertChain",
@@ -230,10 +230,12 @@ Honest(w, o) ==
 
 \* C12: which requests an option setting permits (fs = sequence of [kind, ok] records)
 CrlKinds == {"pckcrl", "rootcrl"}
+\* ("other": a Root CA CRL distribution point taken from a response header that was altered in transit; the statement does not
+\* restrict which URL that is, only that CRL endpoints are contacted with revocation checking on)
 Gating(o, fs) == /\ ~o.gc => fs = <<>>
-                 /\ \A i \in DOMAIN fs : /\ fs[i].kind \in {"tcb", "qe", "pckcrl", "rootcrl"}
-                                         /\ fs[i].ok       \* names the quote's FMSPC / issuing CA
-                                         /\ fs[i].kind \in CrlKinds => o.cr
+                 /\ \A i \in DOMAIN fs : /\ fs[i].kind \in {"tcb", "qe", "pckcrl", "rootcrl", "other"}
+                                         /\ (fs[i].kind \in {"tcb", "pckcrl"} => fs[i].ok)       \* names the quote's FMSPC / issuing CA
+                                         /\ fs[i].kind \in (CrlKinds \cup {"other"}) => o.cr
 
 (* ---------------------------------------------------------------------------------- *)
 (* The pipeline as coded.  StageResult gives the outcome of each stage: "ok", "fail",    *)
@@ -267,13 +269,13 @@ StageResult(st, w, o) ==
          IF ~o.gc THEN "skip" ELSE IF IssuedByInter(w) THEN "ok" ELSE "fail"
     [] st = "fetchTcb" ->
          IF ~o.gc THEN "skip"
-         ELSE IF ~HdrParses(w.tcbHdr) \/ (w.tcbMeta = "memberMissing" /\ w.tcbExtra \notin {"dupBefore", "dupAfter"}) THEN "fail"
-         ELSE IF w.tcbAlter = "memberBit" THEN "either"     \* the flipped bit may break the JSON
+         ELSE IF (~HdrParses(w.tcbHdr) /\ w.tcbHdr # "bitflip") \/ (w.tcbMeta = "memberMissing" /\ w.tcbExtra \notin {"dupBefore", "dupAfter"}) THEN "fail"
+         ELSE IF w.tcbAlter = "memberBit" \/ w.tcbHdr = "bitflip" THEN "either"     \* the flipped bit may break the JSON / the certificate's DER     \* the flipped bit may break the JSON
          ELSE "ok"
     [] st = "fetchQe" ->
          IF ~o.gc THEN "skip"
-         ELSE IF ~HdrParses(w.qeHdr) \/ (w.qeMeta = "memberMissing" /\ w.qeExtra \notin {"dupBefore", "dupAfter"}) THEN "fail"
-         ELSE IF w.qeAlter = "memberBit" THEN "either"
+         ELSE IF (~HdrParses(w.qeHdr) /\ w.qeHdr # "bitflip") \/ (w.qeMeta = "memberMissing" /\ w.qeExtra \notin {"dupBefore", "dupAfter"}) THEN "fail"
+         ELSE IF w.qeAlter = "memberBit" \/ w.qeHdr = "bitflip" THEN "either"
          ELSE "ok"
     [] st = "fetchPckCrl" ->
          IF ~(o.gc /\ o.cr) THEN "skip"
